@@ -940,6 +940,9 @@ func ruleLRPC(p *Program, r *Reporter) {
 type heldLock struct {
 	k   lockKey
 	how string
+	// loopDeferred: taken in a function that defers its release inside a loop, so
+	// that it stays held into the next turn (where it belongs to another object)
+	loopDeferred bool
 }
 
 // heldWithCallers: the locks that may be held before instruction `at` of fn,
@@ -951,7 +954,7 @@ func (la *lockAnalysis) heldWithCallers(fn *ssa.Function, at ssa.Instruction, vi
 		if st, ok := f.before[at]; ok {
 			for k := range st {
 				if st.mayHeld(k) {
-					out = append(out, heldLock{k, "taken in " + funcName(fn)})
+					out = append(out, heldLock{k, "taken in " + funcName(fn), la.deferredUnlockInLoop(fn, k.field)})
 				}
 			}
 		}
@@ -978,7 +981,13 @@ func (la *lockAnalysis) heldWithCallers(fn *ssa.Function, at ssa.Instruction, vi
 					continue
 				}
 			}
-			out = append(out, heldLock{h.k, h.how + " -> " + funcName(fn)})
+			out = append(out, heldLock{h.k, h.how + " -> " + funcName(fn), h.loopDeferred})
+		}
+		// withLock(func(){...}): what the helper holds where it calls the closure
+		for _, in := range s.inner {
+			for _, h := range la.heldWithCallers(in.caller, in.instr, visiting, depth+1) {
+				out = append(out, heldLock{h.k, h.how + " -> " + funcName(fn), h.loopDeferred})
+			}
 		}
 	}
 	sort.Slice(out, func(i, j int) bool { return out[i].k.String()+out[i].how < out[j].k.String()+out[j].how })
@@ -1118,7 +1127,7 @@ func ruleLCHAN(p *Program, r *Reporter) {
 					if st, ok := f0.before[snd]; ok {
 						for k := range st {
 							if st.mayHeld(k) {
-								held = append(held, heldLock{k, "taken in " + funcName(fn)})
+								held = append(held, heldLock{k: k, how: "taken in " + funcName(fn)})
 							}
 						}
 					}
@@ -1142,7 +1151,7 @@ func ruleLCHAN(p *Program, r *Reporter) {
 						continue
 					}
 					for _, h := range la.heldWithCallers(s.caller, s.instr, map[*ssa.Function]bool{fn: true}, 1) {
-						held = append(held, heldLock{h.k, h.how + " -> " + funcName(fn)})
+						held = append(held, heldLock{k: h.k, how: h.how + " -> " + funcName(fn)})
 					}
 				}
 				bad := ""
